@@ -282,6 +282,7 @@ const MAX_STEPS: u64 = 20_000;
 
 /// Runs one scenario to completion under the given chooser.
 pub fn run(def: &ScenDef, cfg: &Cfg, mut ch: Chooser) -> RunOut {
+    crate::core::heartbeat();
     drain_woken();
     crate::quarantine::reset();
     let rep: Rep = Rc::new(RefCell::new(Report::default()));
